@@ -100,6 +100,9 @@ def build_series(cfg):
             arr = buffers.reuse(f"e2e.series.{si}", arr)       # same array object as in earlier runs of this process
         out.append(arr)
     cfg.pop("_last_reg", None)
+    if cfg.get("first_series_dtype") and len(out) >= 2 and not cfg.get("reuse_buffers") and not cfg.get("series_as_views"):
+        # recordings of different element types in one joint call, the narrowest first
+        out[0] = np.round(out[0]).astype("int64") if cfg["first_series_dtype"] == "int64" else out[0].astype(cfg["first_series_dtype"])
     if cfg.get("series_kind") and not cfg.get("reuse_buffers") and not cfg.get("series_as_views"):
         from harness import buffers
         out = [buffers.as_kind(a, cfg["series_kind"]) for a in out]
